@@ -49,6 +49,10 @@ pub fn generate(g: &mut G, index: u64) -> Scenario {
     let nclients = g.range(1, 4) as usize;
     let mut fam = one_actor(g, spec, nclients, &kinds, (1, 3));
     fill_submissions(g, &mut fam, 7, 12);
+    // sometimes a restart with slow hooks is under way when the stop requests come in
+    if g.chance(1, 6) {
+        add_slow_restart(g, &mut fam);
+    }
     // awaiters created before the termination, in clients other than 0
     for c in 1..fam.nclients() {
         if let Some(s) = fam.slots[c].of_kind(&[HKind::Addr]).first().copied() {
